@@ -254,7 +254,13 @@ def float_of_string(I, t: TStr, n):
 
 
 def isinstance_(I, n, v, tnode):
-    names = [unparse(t).split('.')[-1] for t in (tnode.elts if isinstance(tnode, ast.Tuple) else [tnode])]
+    def members(t):
+        if isinstance(t, ast.Tuple):
+            return [m for e in t.elts for m in members(e)]
+        if isinstance(t, ast.BinOp) and isinstance(t.op, ast.BitOr):      # isinstance(x, int | float)
+            return members(t.left) + members(t.right)
+        return [t]
+    names = [unparse(t).split('.')[-1] for t in members(tnode)]
     tn = None
     if isinstance(v, Cont):
         tn = 'Container'
